@@ -974,10 +974,86 @@ def run_c02(ctx):
     run_stage_batch(ctx, stage_batch)
     run_sort_checkers(ctx, sort_batch)
     run_noisy_checkers(ctx, noisy_batch)
+    large_mesh_stream(ctx, 3 if q else 12)
     ctx.rule = ("pairs (M, relabel(M)): random / reversed / swapped point order, shuffled cells within type, shuffled type blocks, "
                 "optional orphan points on either side, coincident points (discontinuous meshes), coordinate noise <= tol/2000 on "
                 "both sides; 1d/2d/3d and 2d-in-3d meshes of lines, triangles, quads, pixels, polygons, tets, hexes, voxels; "
                 "lattice / sheared / jittered coordinates, scales 2^-20..2^20 with offsets. non-trivial = at least 2 cells")
+
+
+def large_mesh_stream(ctx, n):
+    """meshes of about 1.6e5 cells of one type (a lattice of quads, triangles or hexahedra) against a copy with points and cells
+    in another random order: sort keys of limited width (a 32-bit checksum per cell, say) only collide at this size.  The
+    implementation alone is run (the model is not evaluated on meshes of this size): domains equal, every field passed, and the
+    sorted representations identical."""
+    from fieldcompare.mesh import Mesh, MeshFields, MeshFieldsComparator, CellTypes, sort
+    for it in range(n):
+        kind = ["quad", "quad", "triangle", "hexahedron"][it % 4] if n > 2 else "quad"
+        s1, s2 = ctx.rng.randrange(2 ** 31), ctx.rng.randrange(2 ** 31)
+        if kind == "hexahedron":
+            m = 54
+            i, j, k = np.meshgrid(np.arange(m + 1), np.arange(m + 1), np.arange(m + 1), indexing="ij")
+            points = np.stack([i.ravel(), j.ravel(), k.ravel()], axis=1).astype(float)
+            ci, cj, ck = np.meshgrid(np.arange(m), np.arange(m), np.arange(m), indexing="ij")
+            p0 = ((ci * (m + 1) + cj) * (m + 1) + ck).ravel()
+            dx, dy, dz = (m + 1) * (m + 1), m + 1, 1
+            cells = np.stack([p0, p0 + dx, p0 + dx + dy, p0 + dy, p0 + dz, p0 + dx + dz, p0 + dx + dy + dz, p0 + dy + dz], axis=1)
+            ctype = CellTypes.hexahedron
+        else:
+            m = 400 if kind == "quad" else 283
+            i, j = np.meshgrid(np.arange(m + 1), np.arange(m + 1), indexing="ij")
+            points = np.stack([i.ravel(), j.ravel()], axis=1).astype(float)
+            ci, cj = np.meshgrid(np.arange(m), np.arange(m), indexing="ij")
+            p0 = (ci * (m + 1) + cj).ravel()
+            if kind == "quad":
+                cells = np.stack([p0, p0 + m + 1, p0 + m + 2, p0 + 1], axis=1)
+                ctype = CellTypes.quad
+            else:
+                cells = np.concatenate([np.stack([p0, p0 + m + 1, p0 + m + 2], axis=1), np.stack([p0, p0 + m + 2, p0 + 1], axis=1)])
+                ctype = CellTypes.triangle
+        if it % 4 != 1:
+            # the lattice's topology with distinct random first coordinates: the sorted point numbering is then a random one
+            # (on the regular lattice the corner ids of the sorted mesh are so regular that a linear checksum may never, or
+            # very often, collide, depending on the lattice size)
+            points[:, 0] = np.random.default_rng(s1 ^ 0x5EED).permutation(len(points)).astype(float)
+        pdata = points @ np.array([1000.0, 1.0, 0.001][:points.shape[1]])
+        cdata = points[cells].mean(axis=1) @ np.array([1000.0, 1.0, 0.001][:points.shape[1]])
+
+        def copy(seed):
+            r = np.random.default_rng(seed)
+            pp = r.permutation(len(points))
+            inv = np.empty(len(points), dtype=np.int64)
+            inv[pp] = np.arange(len(points))
+            cp = r.permutation(len(cells))
+            return MeshFields(Mesh(points[pp], [(ctype, inv[cells][cp])]), point_data={"pd": pdata[pp]}, cell_data={"cd": [cdata[cp]]})
+        canon = {"kind": "large lattice", "cell_type": kind, "cells_per_direction": m, "cells": int(len(cells)),
+                 "numpy_permutation_seeds": [s1, s2], "random_first_coordinate": it % 4 != 1,
+                 "recipe": "lattice points (i, j[, k]) as floats (random_first_coordinate: x replaced by numpy default_rng(seed1 ^ "
+                           "0x5EED).permutation(number of points)), cells in VTK corner order; copy(seed): numpy default_rng(seed) "
+                           "permutation of the points, then of the cells; point field 1000x+y(+0.001z), cell field the same of the "
+                           "cell centre"}
+        ctx.case(canon, True, sample={"case": canon})
+        ctx.count(f"c02:large lattice:{kind}")
+        try:
+            with quiet():
+                warnings.simplefilter("ignore")
+                A, B = copy(s1), copy(s2)
+                suite = MeshFieldsComparator(A, B)(fieldcomp_callback=lambda _: None, reordering_callback=lambda _: None)
+                bad = [(c.name, c.status.name) for c in suite if c.status.name != "passed"]
+                dom = bool(suite.domain_equality_check)
+                SA, SB = sort(A), sort(B)
+                same = (np.array_equal(SA.domain.points, SB.domain.points)
+                        and np.array_equal(SA.domain.connectivity(ctype), SB.domain.connectivity(ctype))
+                        and all(np.array_equal(f1.values, f2.values) for f1, f2 in zip(SA, SB)))
+        except Exception as e:  # noqa: BLE001
+            ctx.violation("E4", f"comparison / sort of a large mesh and its reordered copy raised {type(e).__name__}: {e}", canon)
+            continue
+        if not dom or bad:
+            ctx.violation("E4", f"a mesh of {len(cells)} {kind} cells and its reordered copy do not pass: "
+                          + ("domains reported unequal" if not dom else f"fields {bad[:3]}"), canon)
+        elif not same:
+            ctx.violation("E4", f"sorted representations of a mesh of {len(cells)} {kind} cells and its reordered copy are not identical", canon)
+        ctx.traces_validated += 1
 
 
 def structured_vs_permuted_stream(ctx, n):
